@@ -2,5 +2,5 @@
 # usage: detect_queue.sh <file with lines "seed check [check...]">  -- run detect.sh for each line, sequentially
 while read -r seed checks; do
   [ -z "$seed" ] && continue
-  /verif/tools/detect.sh $seed $checks 2>&1 | grep -E "^$seed C[0-9][0-9] rc="
+  /verif/tools/detect.sh $seed $checks 2>&1 | grep -E " C[0-9][0-9] rc="
 done < "$1"
